@@ -33,6 +33,8 @@ the whole cost table with the connector model (`oc = true`: the harness is compi
 panics for some pair of the table (the harness prints the same word). -/
 def bigramDef (fx : Fixes) (lex right left cost chardef unk : List UInt8) (dual : Bool) :
     Except String (Outcome DictM) :=
+  -- repair F26: 65535 or more rows in bigram.right / bigram.left are an error (`Props/C10guard.lean`)
+  if (RawConnector.splitLines right []).length ≥ 65535 ∨ (RawConnector.splitLines left []).length ≥ 65535 then .ok .err else
   match Bigram.buildBigram fx true none lex right left cost chardef unk dual with
   | .ok B =>
     match B.table true with
